@@ -9,6 +9,8 @@ NOTE = ("Trusted base: TLC 1.8 + CommunityModules Json; the concretiser and the 
         "Contract clauses evaluated by TLC on states recorded from the real generated code; Impl-model mismatches are DRIFT (exit 0).")
 
 claimed = {
+ "C01": ("DESIGN.md §6 C01", "Family 'genmap': one real plugin run per shape (15 scalar types x singular / repeated / map / oneof, naming variants, every session shape incl. empty messages, embeds, oneofs, time / duration, casts); Trace.tla judges C01.exit, stdout (strict decoding + canonical re-encoding of the raw stdout), features, onefile, name, license, package, funcs (exact set + normalised signatures) and C01.compiles (go build of generated file + protoc-gen-gogo output) on the recorded run summary."),
+ "C02": ("DESIGN.md §6 C02", "Family 'genmap': the real tfsdk.Schema returned by every GenSchema<T> is projected and compared by Trace.tla with the documented mapping (spec/Schema.tla SchemaOf over spec/Generator.tla: name_overrides by path / Message.field, json tag, snake_case; type table; flattening) - clauses C02.bijection, C02.type at every nesting level."),
  "C03": ("DESIGN.md §6 C03", "TLC enumerates every shape x struct value of family 'empty' (spec/MC_SessEmpty); each behaviour SetObj;NewEmpty;CopyTo is replayed in the real generated code and Trace.tla judges clauses C03.nopanic/noerror/present/typed/nounknown/convertible on the recorded states. Exhaustive within the shape / value bounds, not unbounded."),
  "C04": ("DESIGN.md §6 C04", "Same enumeration continued with FreshObj;CopyFrom; clause C04.roundtrip compares the normal forms (spec/Contract.tla NF) of the original and the read-back REAL struct, per field."),
  "C05": ("DESIGN.md §6 C05", "Family 'reset' (spec/MC_SessReset): TLC enumerates every conforming object (every leaf null / unknown / known zero / known non-zero, containers null / unknown / empty / filled, hand-built payloads under null / unknown) x prior target content; SetObj;LoadRaw;CopyFrom is replayed in the real code; clauses C05.noerror, C05.reset.*, C05.excluded_untouched per attribute and the pairwise clauses C05.history_free / C05.payload_free (trace validator remembers, per payload-free skeleton of the input, the first real result)."),
